@@ -107,3 +107,33 @@ func Link(oldname, newname string) error {
 	defer after()
 	return os.Link(oldname, newname)
 }
+
+const (
+	O_RDONLY = os.O_RDONLY
+	O_WRONLY = os.O_WRONLY
+	O_RDWR   = os.O_RDWR
+	O_APPEND = os.O_APPEND
+	O_CREATE = os.O_CREATE
+	O_EXCL   = os.O_EXCL
+	O_SYNC   = os.O_SYNC
+	O_TRUNC  = os.O_TRUNC
+)
+
+var (
+	ErrInvalid = os.ErrInvalid
+	ErrClosed  = os.ErrClosed
+)
+
+func OpenFile(name string, flag int, perm os.FileMode) (*os.File, error) {
+	if flag&(os.O_CREATE|os.O_TRUNC) != 0 {
+		before()
+		defer after()
+	}
+	return os.OpenFile(name, flag, perm)
+}
+
+func Create(name string) (*os.File, error) {
+	before()
+	defer after()
+	return os.Create(name)
+}
